@@ -183,11 +183,16 @@ def gen_profile(rng, tier, senders=(1, 2), big_p=0.25, transports=(45, 12, 18, 2
         faults.append({"at": ["step", rng.randrange(50, 1500)],
                        "do": ["stall", rng.choice(["w1", "w2", "init"]), rng.choice([0.1, 1.0, 3.0])]})
     return {"gateways": specs, "actors": actors, "knobs": knobs, "strategy": L.gen_strategy(rng),
-            "preempt": L.gen_preempt(rng, 4000), "faults": faults, "transport": transport,
+            "preempt": L.gen_preempt(rng, 4000), "preempt_at": L.gen_preempt_at(rng, ["_local_receive", "receive", "setcallback", "_send", "to_io", "from_io", "_thread_receiver", "send", "write", "read"]), "faults": faults, "transport": transport,
             "backend": backend, "gwi": gwi}
 
 
 def shrink_cases(case):
+    if case.get("preempt_at"):
+        for i in range(len(case["preempt_at"])):
+            c = dict(case)
+            c["preempt_at"] = case["preempt_at"][:i] + case["preempt_at"][i + 1:]
+            yield c
     # drop faults / preemptions, calm knobs; (actor programs are interdependent, keep them)
     if case.get("faults"):
         for i in range(len(case["faults"])):
